@@ -27,6 +27,8 @@ inductive GStmt
   | retExp (c : GExp)                       -- `return <boolean expression>`
   | act (what : String)                     -- a call with effects
   | assign (name : String) (c : GExp)       -- assignment to a tracked boolean variable
+  | scope (var : String) (body : List GStmt) -- a helper of the package rendered in place of `var := helper(…)`: its returns end the
+                                            -- body only, and an error result decides `var!=nil`
   | opaque (what : String)                  -- not interpreted (select, …): evaluation stops here
   | skip
   | unknown (src : String)
@@ -139,6 +141,20 @@ def evalS (env : Env) (st : Store) : Nat → List GStmt → Res × Store
         match evalE env st f c with
         | some v => evalS env (st.set n v) f rest
         | none => (⟨[], .stuck "assignment"⟩, st)
+    | .scope var body =>
+        let r := evalS env st f body
+        let go (st' : Store) : Res × Store :=
+          let r2 := evalS env st' f rest
+          (⟨r.1.acts ++ r2.1.acts, r2.1.out⟩, r2.2)
+        match r.1.out with
+        | .fell => go r.2
+        | .ret w =>
+            if w = "err" then go (r.2.set (var ++ "!=nil") true)
+            else if w = "ok" then go (r.2.set (var ++ "!=nil") false)
+            else if w = "true" then go (r.2.set var true)
+            else if w = "false" then go (r.2.set var false)
+            else go r.2
+        | _ => r
     | .opaque w => if env.pass w then evalS env st f rest else (⟨[], .opaque w⟩, st)
     | .skip => evalS env st f rest
     | .unknown src => (⟨[], .stuck src⟩, st)
